@@ -14,7 +14,7 @@ META = {
     ),
     "assumptions": ["order inside the before segment and inside the on segment is unconstrained"],
     "must_observe": ["events_executed", "results_checked"],
-    "shard_timeout": {"quick": 300, "thorough": 3400},
+    "shard_timeout": {"quick": 900, "thorough": 3400},
 }
 
 PROFILE = {"n_states": (2, 4), "n_events": (1, 3), "extra_transitions": (1, 5), "p_multi_event": 0.35,
